@@ -7,11 +7,12 @@
                             action of `id` any more, hence (cross-layer invariant) the client has no command in progress and its
                             output holds one terminal reply per request line: the reply of the command has been produced
    dstep_deadline           the same for a whole round (client pass, then device pass): the hypothesis is taken in the state the
-                            client pass leaves *)
+                            client pass leaves
+   Both always return Ok (no Hang case): DPInv carries the Hang-free device invariant Proofs/DeviceHang.DInvH. *)
 From Coq Require Import List NArith ZArith Bool Lia Permutation.
 From PM Require Import Base.Bytes Base.Outcome Gen.GenConsts Model.ScriptAst Model.Enqueue Model.Script Model.Device Model.DevHarness
                        Model.Client Model.CliWorld Model.Daemon Spec.Proto
-                       Proofs.ClientProofs Proofs.ClientProto Proofs.ClientStream Proofs.ClientStreamQ Proofs.DeviceInv Proofs.DeviceRun Proofs.DeviceInvG Proofs.DeviceRunG
+                       Proofs.ClientProofs Proofs.ClientProto Proofs.ClientStream Proofs.ClientStreamQ Proofs.DeviceInv Proofs.DeviceRun Proofs.DeviceInvG Proofs.DeviceRunG Proofs.DeviceHang
                        Proofs.DeviceSlots Proofs.DaemonLedger Proofs.DaemonFrame Proofs.DaemonSlots Proofs.DaemonPending Proofs.DeviceMask Proofs.DeviceDeadline.
 Import ListNotations.
 Local Open Scope Z_scope.
@@ -64,7 +65,6 @@ Section DD.
     match dev_loop ranged_sorted rmatch compress short_circuit n now st i pins tmo acc with
     | Ok (st', _, _) => (forall j d, (i <= j)%nat -> nth_error (dm_devs st') j = Some d -> ~ In id (queued d)) /\
                         (forall j, (j < i)%nat -> nth_error (dm_devs st') j = nth_error (dm_devs st) j)
-    | Hang _ => True
     | _ => False
     end.
   Proof.
@@ -77,16 +77,16 @@ Section DD.
       2:{ split; [|reflexivity]. intros j d Hj Hn. exfalso. apply nth_error_None in En.
           assert (nth_error (dm_devs st) j = None) by (apply nth_error_None; lia). congruence. }
       destruct (with_pre (nth i (dm_pipe st) true) (nth i (dm_tel st) Telnet.telnet_init) (hd passin0 pins)) as [pin t1] eqn:Ew.
-      assert (Hd : DInvRG compress d) by (pose proof (dp_devs _ _ I) as H; rewrite Forall_forall in H; apply H; eapply nth_error_In; exact En).
+      assert (Hd : DInvRG compress d) by (pose proof (dp_devs _ _ I) as H; rewrite Forall_forall in H; apply DInvH_RG, H; eapply nth_error_In; exact En).
       destruct Hd as [Hd Hrc].
       pose proof (post_poll_one_inv_pre rmatch compress short_circuit now d (dm_store st) tmo pin Hd Hp Hrc) as HG.
       assert (HD : In id (queued d) -> flushes rmatch compress short_circuit now d (dm_store st) tmo pin).
       { intros Hin. destruct (Hdue i d (Nat.le_refl i) En Hin) as ((act0 & rest & Ea & Hl) & Hst).
         specialize (Hst tmo Hp). unfold dev_pin in Hst. rewrite Nat.sub_diag, nth_0_hd, Ew in Hst. cbn [fst] in Hst.
         exact (deadline_pass_steady rmatch compress short_circuit now d (dm_store st) tmo pin act0 rest Hd Hp Hrc Ea Hl Hst). }
-      destruct (post_poll_one rmatch compress short_circuit now d (dm_store st) tmo pin) as [[[[d' store'] tmo'] evs]| | | |] eqn:EP; try contradiction; [|exact Logic.I].
+      destruct (post_poll_one rmatch compress short_circuit now d (dm_store st) tmo pin) as [[[[d' store'] tmo'] evs]| | | |] eqn:EP; try contradiction.
       match goal with |- context [route_all ranged_sorted ?s evs] => set (st1 := s) in * end.
-      destruct (route_all ranged_sorted st1 evs) as [st2| | | |] eqn:ER; try contradiction; [|exact Logic.I].
+      destruct (route_all ranged_sorted st1 evs) as [st2| | | |] eqn:ER; try contradiction.
       destruct H1 as (I2 & P2 & _).
       destruct (route_all_static _ _ _ ER) as (A1 & A2 & A3). unfold st1 in A1, A2, A3. cbn [dm_devs dm_pipe dm_tel] in A1, A2, A3.
       assert (Hno : ~ In id (queued d')).
@@ -104,7 +104,7 @@ Section DD.
         rewrite Et. exact Hs. }
       assert (Hlen2 : (length (dm_devs st2) <= n + S i)%nat) by (rewrite A1, length_upd_nth; lia).
       specialize (IH now st2 (S i) (tl pins) tmo' (acc ++ map (SysDev i) evs) id I2 P2 Hdue2 Hlen2).
-      destruct (dev_loop ranged_sorted rmatch compress short_circuit n now st2 (S i) (tl pins) tmo' (acc ++ map (SysDev i) evs)) as [[[st3 tmo3] evs3]| | | |]; try contradiction; [|exact Logic.I].
+      destruct (dev_loop ranged_sorted rmatch compress short_circuit n now st2 (S i) (tl pins) tmo' (acc ++ map (SysDev i) evs)) as [[[st3 tmo3] evs3]| | | |]; try contradiction.
       destruct IH as [B1 B2]. split.
       + intros j dj Hj Hnj. destruct (Nat.eq_dec j i) as [->|Hne].
         * rewrite (B2 i ltac:(lia)), A1, (nth_error_upd_nth_eq _ _ _ _ En) in Hnj. injection Hnj as <-. exact Hno.
@@ -120,7 +120,6 @@ Section DD.
   Theorem dev_pass_deadline now st pins id : DPInv compress st -> due now st pins 0 id ->
     match dev_loop ranged_sorted rmatch compress short_circuit (length (dm_devs st)) now st 0 pins None [] with
     | Ok (st', _, _) => DPInv compress st' /\ ~ In id (qall (dm_devs st')) /\ answered st' id
-    | Hang _ => True
     | _ => False
     end.
   Proof.
@@ -128,7 +127,7 @@ Section DD.
     assert (Hn : tmo_pos None) by (intros x Hx; discriminate).
     pose proof (dev_loop_inv expand_str ranged_sorted ranged_plain sorted rmatch compress short_circuit (length (dm_devs st)) now st 0 pins None [] I Hn) as H1.
     pose proof (dev_loop_due (length (dm_devs st)) now st 0 pins None [] id I Hn Hdue ltac:(lia)) as H2.
-    destruct (dev_loop ranged_sorted rmatch compress short_circuit (length (dm_devs st)) now st 0 pins None []) as [[[st' tmo'] evs]| | | |]; try contradiction; [|exact Logic.I].
+    destruct (dev_loop ranged_sorted rmatch compress short_circuit (length (dm_devs st)) now st 0 pins None []) as [[[st' tmo'] evs]| | | |]; try contradiction.
     destruct H1 as (I' & _). destruct H2 as [B _]. split; [exact I'|].
     assert (Hq : ~ In id (qall (dm_devs st'))).
     { unfold qall. intros Hin. apply in_flat_map in Hin as (d & Hd & Hin). apply In_nth_error in Hd as (j & Hj). exact (B j d ltac:(lia) Hj Hin). }
@@ -181,14 +180,13 @@ Section DD.
     (forall st1 e1, cli_post_poll expand_str ranged_sorted ranged_plain sorted st r = Ok (st1, e1) -> due (r_now r) st1 (r_dev r) 0 id) ->
     match dstep expand_str ranged_sorted ranged_plain sorted rmatch compress short_circuit st r with
     | Ok (st', _) => DPInv compress st' /\ ~ In id (qall (dm_devs st')) /\ answered st' id
-    | Hang _ => True
     | _ => False
     end.
   Proof.
     intros I Hnl Hseq Hdue. unfold dstep.
     destruct (cli_post_poll_inv st r I Hnl Hseq) as (st1 & e1 & E & I1 & N1). rewrite E.
     pose proof (dev_pass_deadline (r_now r) st1 (r_dev r) id I1 (Hdue _ _ E)) as HD.
-    destruct (dev_loop ranged_sorted rmatch compress short_circuit (length (dm_devs st1)) (r_now r) st1 0 (r_dev r) None []) as [[[st2 tmo] e2]| | | |]; try contradiction; [|exact Logic.I].
+    destruct (dev_loop ranged_sorted rmatch compress short_circuit (length (dm_devs st1)) (r_now r) st1 0 (r_dev r) None []) as [[[st2 tmo] e2]| | | |]; try contradiction.
     exact HD.
   Qed.
 End DD.
